@@ -395,7 +395,7 @@ def main(rep, tier):
     for sh in shapes:
         for sd in (False, True):
             if sh.note == "native":
-                jobs.append(dict(module="c01", func="e2e_factory", kwargs=dict(shape=sh.name, skip_default=sd), timeout=200))
+                jobs.append(dict(module="c01", func="e2e_factory", kwargs=dict(shape=sh.name, skip_default=sd), timeout=200, max_fail_samples=40))
             else:
                 from ..shapes import shard_jobs
 
@@ -423,6 +423,10 @@ def main(rep, tier):
             payload = dict(module="c01", func=smp["harness"], kwargs=smp["kwargs"], native_kwargs=nk, ordered=smp["values"].get("__order__", []))
             r = run_native("ch", "replay_path", payload)
             vals = dict(shape=shape, skip_default=sd, info=json.dumps(smp["info"], default=repr), replay=r.get("detail", ""))
+            if shape == "strings":
+                from ..shapes import _TEXT_MENU
+
+                vals["input"] = ascii(_TEXT_MENU[smp["values"].get("text", 0)]) + " at position %s" % smp["values"].get("where")
             if isinstance(smp["info"], dict) and "routes" in smp["info"]:
                 # the distinct differences over all routes: a finding pinned on `details` covers a sample only if it shows nothing else
                 vals["details"] = " | ".join(sorted({str(d) for _, d in smp["info"]["routes"]}))
